@@ -2,7 +2,7 @@
    bool, option, list, prod, unit, sumbool map to OCaml's; nat, positive, Z, N stay
    the extracted inductives).  Compiled from build/model, not part of the proof build. *)
 From Coq Require Import ExtrOcamlBasic List ZArith.
-From OmplV Require Import HeapModel MotionModel PtcModel SeedModel SolModel GridModel.
+From OmplV Require Import HeapModel MotionModel PtcModel SeedModel SolModel GridModel NNModel.
 Extraction Language OCaml.
 Extraction "model.ml" HeapModel.step HeapModel.run HeapModel.pop_all_e HeapModel.sort_keys HeapModel.find_pos
   MotionModel.check_lin MotionModel.check_bis MotionModel.check_bis_nocount MotionModel.check_states MotionModel.states_lin
@@ -11,4 +11,6 @@ Extraction "model.ml" HeapModel.step HeapModel.run HeapModel.pop_all_e HeapModel
   SolModel.sol_add SolModel.slt SolModel.rank
   GridModel.gridn_add GridModel.gridn_remove GridModel.gridb_add GridModel.gridb_remove GridModel.gridb_update GridModel.components
   GridModel.neighbors GridModel.has GridModel.top_internal GridModel.top_external GridModel.gb_empty GridModel.upd_cell
+  NNModel.lin_remove NNModel.lin_nearest NNModel.nearestK NNModel.nearestR NNModel.sqrt_nearest NNModel.inv_ok_root NNModel.elems
+  NNModel.pruned_by_range NNModel.pruned_by_radius Z.abs
   Z.ltb Z.modulo Z.of_nat Z.to_nat Z.add Z.sub Z.mul Z.div Z.eqb Z.leb Nat.add.
